@@ -572,7 +572,7 @@ def r11(ctx, prog):
 def r12(ctx, prog):
     ctx.rule('C20.R12', 'A10 configuration and alignment by folding: every alarm kind accepts exactly the seconds-of-day 0..86399; WeeklyAlarm::initialize turns the 7-character '
              'mask into bit i for character i == \'1\', i = 0..6, each once; in the day scans the weekday / day index of the first iteration is today\'s (the candidate instant '
-             'starts at today, so the loop variable must start at 0); the clock read is taken as successful exactly when gettimeofday() returns 0', floor=8)
+             'starts at today, so the loop variable must start at 0); the clock read is taken as successful exactly when gettimeofday() returns 0', floor=7)
     n = 0
     SOD = 86400
     for f in prog.funcs.values():
@@ -601,26 +601,29 @@ def r12(ctx, prog):
     loops = [st for st in wi.stmts if st and st['k'] == 'ForStmt' and st.get('cond') is not None]
     ors = [st for st in wi.stmts if st and st['k'] == 'CompoundAssignOperator' and st.get('op') == '|=' and (wi.field_of(st['ch'][0]) or '').endswith('week_mask_')]
     if len(loops) != 1 or len(ors) != 1:
-        raise AnalysisBroken('WeeklyAlarm::initialize: mask loop / |= not found (%d/%d)' % (len(loops), len(ors)))
-    lp = loops[0]
-    consts = [wi.stmts[x] for x in wi.walk(lp['cond']) if wi.stmts[x].get('cv') is not None and wi.stmts[x]['k'] != 'BinaryOperator']
-    tr = q.loop_trips(wi, lp, lambda sx: bool(consts) and sx['i'] == consts[0]['i'], counts=[7])
-    ivn = None
-    for x in wi.walk(lp['init']):
-        if wi.stmts[x]['k'] == 'DeclStmt':
-            ivn = wi.stmts[x]['decls'][0]['n']
-    okl = tr is not None and tr.get(7) == (7, 0)
-    bits = [q.eval_expr(wi, ors[0]['ch'][1], lambda sx, i=i: i if (sx['k'] == 'DeclRefExpr' and sx.get('n') == ivn) else None) for i in range(7)]
-    okb = bits == [1 << i for i in range(7)]
-    one = False
-    for c, k, b in wi.cfg.controlling_branches(q.pt_or_term(wi, ors[0])):
-        cs = wi.s(wi.strip_casts(c))
-        if cs and cs['k'] == 'BinaryOperator' and cs.get('op') == '==' and k == 0 and any((wi.s(x) or {}).get('cv') == ord('1') or (wi.s(wi.strip_casts(x)) or {}).get('v') == ord('1') for x in cs['ch']):
-            one = True
-    n += 1
-    ctx.ob('C20.R12', '%s|mask' % wi.name, okl and okb and one, 'characters 0..6, bit i for \'1\' at position i' if okl and okb and one else
-           'the weekday mask is not built as bit i <- (mask[i] == \'1\') for i = 0..6 (%s): a configured weekday is dropped or a wrong one set' %
-           ('loop runs %s' % (tr.get(7),) if not okl else ('bits %s' % bits if not okb else 'the character compared is not \'1\'')), where=wi.loc(lp['i']))
+        # the mask is not built by a loop of `|=` (std::bitset, a table, ...): which bit a character sets is then decided by the replay C20.R14 alone, which runs
+        # initialize() itself on masks that are not palindromes
+        pass
+    else:
+        lp = loops[0]
+        consts = [wi.stmts[x] for x in wi.walk(lp['cond']) if wi.stmts[x].get('cv') is not None and wi.stmts[x]['k'] != 'BinaryOperator']
+        tr = q.loop_trips(wi, lp, lambda sx: bool(consts) and sx['i'] == consts[0]['i'], counts=[7])
+        ivn = None
+        for x in wi.walk(lp['init']):
+            if wi.stmts[x]['k'] == 'DeclStmt':
+                ivn = wi.stmts[x]['decls'][0]['n']
+        okl = tr is not None and tr.get(7) == (7, 0)
+        bits = [q.eval_expr(wi, ors[0]['ch'][1], lambda sx, i=i: i if (sx['k'] == 'DeclRefExpr' and sx.get('n') == ivn) else None) for i in range(7)]
+        okb = bits == [1 << i for i in range(7)]
+        one = False
+        for c, k, b in wi.cfg.controlling_branches(q.pt_or_term(wi, ors[0])):
+            cs = wi.s(wi.strip_casts(c))
+            if cs and cs['k'] == 'BinaryOperator' and cs.get('op') == '==' and k == 0 and any((wi.s(x) or {}).get('cv') == ord('1') or (wi.s(wi.strip_casts(x)) or {}).get('v') == ord('1') for x in cs['ch']):
+                one = True
+        n += 1
+        ctx.ob('C20.R12', '%s|mask' % wi.name, okl and okb and one, 'characters 0..6, bit i for \'1\' at position i' if okl and okb and one else
+               'the weekday mask is not built as bit i <- (mask[i] == \'1\') for i = 0..6 (%s): a configured weekday is dropped or a wrong one set' %
+               ('loop runs %s' % (tr.get(7),) if not okl else ('bits %s' % bits if not okb else 'the character compared is not \'1\'')), where=wi.loc(lp['i']))
     # alignment of the day scans
     for name, cnt in (('tbox::alarm::WeeklyAlarm::calculateNextLocalTimeSec', None), ('tbox::alarm::WorkdayAlarm::calculateNextLocalTimeSec', None)):
         g = prog.fn1(name)
@@ -678,8 +681,8 @@ def r12(ctx, prog):
                 ok = None not in vec and [bool(x) for x in vec] in ([False, True], [True, False])
                 ctx.ob('C20.R12', '%s|clock-ok@%s' % (g.short, g.loc(blk.cond).split(':')[-1]), ok, 'the read is taken as good exactly on a return of 0' if ok else
                        'gettimeofday()\'s result is not tested against 0: the clock is never (or always) taken as read', where=g.loc(blk.cond))
-    if n < 8:
-        raise AnalysisBroken('expected >= 8 configuration/alignment tests in the alarm module, found %d' % n)
+    if n < 7:
+        raise AnalysisBroken('expected >= 7 configuration/alignment tests in the alarm module, found %d' % n)
 
 
 def r13(ctx, prog):
